@@ -109,4 +109,26 @@ CLAIMS = {
         "technique": "error-drop dataflow over MIR drop terminators, outcome-map extraction by constant propagation, "
                      "who-may-call audit of io::Read, byte-class extraction and comparison of sibling scanners",
     },
+    "C01": {
+        "text": "Claimed (table clauses only, each a necessary condition of the round trip): for all 256 byte values the text "
+                "the default printer emits for the byte inside a string is read back as exactly that byte by the R6RS "
+                "string reader (ESCAPE -> CharEscape -> escape text composed with the reader's escape switch; HEX inverts "
+                "HEX_DIGITS; quote and backslash are escaped); every printable ASCII character written as #\\c is read "
+                "back as itself (95 cases); the separator ' ' and closer ')' are in every token-terminator class; in radix "
+                "10 the number reader routes '.', 'e', '-' and digits of itoa/ryu output to its fraction/exponent paths. "
+                "Equality of values, float exactness, nesting and the independent reader are not decided.",
+        "note": _TB + "itoa/ryu output alphabet is digits . e -; char::encode_utf8 is the identity below 0x80.",
+        "technique": "writer/reader table composition by conditional constant propagation over all byte values; exact "
+                     "subset checks between extracted byte classes",
+    },
+    "C02": {
+        "text": "Claimed (table clauses only): ' ', ')' and ']' end every token kind; for all 256 byte values the Emacs Lisp "
+                "string printer's text is read back as that byte by the Emacs Lisp string reader, control characters using "
+                "the \\u00XX form; every printable character written by write_elisp_char (backslash chosen from "
+                "ELISP_ESCAPE_CHARS) is read back as itself (95 cases); every `#` token constant of the printer is "
+                "dispatched by parse_token to the matching token kind; the octal digit table is correct. The 576 x 1536 "
+                "option cross product, nil/t folding and value equality are not decided.",
+        "note": _TB + "core::fmt {:x} prints lowercase hexadecimal.",
+        "technique": "writer/reader table composition by conditional constant propagation; byte-class subset checks",
+    },
 }
